@@ -29,8 +29,11 @@ RULE = ("history = 1..20 (thorough 30) ops drawn from: complete a pool blob thro
         "(with/without delete_from_db, optionally dying after j file removals before the DB delete), removing a "
         "blob file behind the manager's back, dropping in a file named by a known hash (never seen / pending / "
         "deleted) or by a fresh valid hash, dropping files with invalid names, deleting a DB row while the file "
-        "stays, caching a blob object (get_blob), restart (clean or unclean, optionally repeated at once); every "
-        "history ends with restart+restart. Ops pick hashes by (mode, index): index modulo the known hashes that currently have a file / have a row but no file / are reported completed / have neither, so most ops hit live state. "
+        "stays, caching a blob object (get_blob), restart (clean or unclean, optionally repeated at once); 1 history "
+        "in 26 starts with 499..502 files the DB has never seen (ensure_completed_blobs_status flushes a batch "
+        "at 501); every history ends with restart+restart. Ops pick hashes by (mode, index): index modulo the "
+        "known hashes that currently have a file / have a row but no file / are reported completed / have "
+        "neither, so most ops hit live state. "
         "non-trivial = at least one restart found the disk and the DB disagreeing (a hash-named file without a "
         "'finished' row, or a 'finished' row without file). distinct = distinct canonical JSON of the case.")
 ASSUMPTIONS = [
@@ -522,8 +525,7 @@ def op_strategy():
 
 def case_strategy(tier):
     max_ops = 20 if tier == "quick" else 30
-    bulk = st.one_of(st.just(0), st.just(0), st.just(0), st.just(0), st.just(0), st.just(0), st.just(0), st.just(0),
-                     st.just(0), st.just(0), st.just(0), st.integers(498, 504), st.integers(1000, 1010))
+    bulk = st.sampled_from([0] * 100 + [499, 500, 501, 502])
     return st.builds(lambda sb, b, ops: {"save_blobs": sb, "bulk": b, "ops": ops},
                      st.sampled_from([True] * 9 + [False]), bulk,
                      st.lists(op_strategy(), min_size=1, max_size=max_ops))
